@@ -14,7 +14,7 @@ from checks import common
 
 ALPHA = ["<mj-text>", "</mj-text>", "<mj-text a=\"b\">", "<MJ-Text>", "</MJ-TEXT>", "<mjml>", "</mjml>", "<!--", "-->", "&", "&amp;", "&lt;", "&gt;",
          "&quot;", "&apos;", "&nbsp;", "&#160;", "&#xA0;", "&copy;", "&reg;", "&trade;", "&ndash;", "&mdash;", "&hellip;", "&x;", "&#12;", "&#x1f;",
-         "&#;", "&amp", "\"", "'", "<", ">", "/", " ", "\n", "\r\n", "\t", "<br/>", "<br />", "<BR/>", "<br\n/>", "<br\t/>", "<hr \n />", "<img src='x'\n/>", "<img src=\"a&b\"/>", "<hr  />", "<input a='b'/>",
+         "&#;", "&amp", "&#x0001F600;", "&#0000065;", "&#x000000041;", "&thetasym;", "&CounterClockwiseContourIntegral;", "&#x1F600", "&#x0001F600 ;", "\"", "'", "<", ">", "/", " ", "\n", "\r\n", "\t", "<br/>", "<br />", "<BR/>", "<br\n/>", "<br\t/>", "<hr \n />", "<img src='x'\n/>", "<img src=\"a&b\"/>", "<hr  />", "<input a='b'/>",
          "]]>", "<![CDATA[", "a", "=", "href", "<mj-raw>", "</mj-raw>", "<mj-text/>", "<mj-text />", ";", "#", "x", "<a href='x?a=1&b=2'>", " ",
          "<colgroup/>", "<wbr/>", "-", "--", "<!-- c -->", "<mj-textarea>", "﻿"]
 
